@@ -33,6 +33,43 @@ def _child(state, cmd):
     lock = baton.SimLock(sched, "calculation_lock")
     if not cfg.get("no_sim_lock"):
         sasview_model.calculation_lock = lock
+    # Any other lock the interface may use has to be visible to the scheduler too (a real
+    # lock held by a parked thread would block the simulator): locks that already exist
+    # at module or class level are replaced, and the module's lock factories hand out
+    # simulated locks from now on.
+    import _thread
+    import threading as _threading
+    real_types = (type(_thread.allocate_lock()), type(_threading.RLock()))
+    sim_locks = [lock]
+
+    def _sim(name):
+        lk = baton.SimLock(sched, name)
+        sim_locks.append(lk)
+        return lk
+    from sasmodels import kerneldll as _kd
+    for mod in (sasview_model, _kd):
+        for name, val in list(vars(mod).items()):
+            if isinstance(val, real_types):
+                setattr(mod, name, _sim("%s.%s" % (mod.__name__.split(".")[-1], name)))
+            elif isinstance(val, type):
+                for an, av in list(vars(val).items()):
+                    if isinstance(av, real_types):
+                        setattr(val, an, _sim("%s.%s" % (val.__name__, an)))
+
+    class _LockFactory(object):
+        def __init__(self, real):
+            self._real = real
+
+        def __getattr__(self, name):
+            return getattr(self._real, name)
+
+        def allocate_lock(self):
+            return _sim("lock#%d" % len(sim_locks))
+        Lock = RLock = allocate_lock
+    for mod in (sasview_model, _kd):
+        for name in ("thread", "_thread", "threading"):
+            if name in vars(mod):
+                setattr(mod, name, _LockFactory(vars(mod)[name]))
     lazy = [0]
 
     orig_block = sched.block
@@ -93,7 +130,8 @@ def _child(state, cmd):
         err = err or str(exc)
     return {"results": results, "decisions": list(sched.decisions), "digest": sched.digest({"cfg": cfg}),
             "shape": sched.shape(), "steps": sched.step, "preempted_mid": sched.preempted_mid,
-            "lock_contended": lock.contended, "lock_acquisitions": lock.acquisitions,
+            "lock_contended": sum(l.contended for l in sim_locks),
+            "lock_acquisitions": sum(l.acquisitions for l in sim_locks),
             "lazy_contended": lazy[0], "stop_reason": stop, "harness_error": err, "shared_log": shared_log,
             "tail": [list(e) for e in sched.events[-40:]]}
 
